@@ -10,6 +10,7 @@
 package main
 
 import (
+	"time"
 	"crypto/sha256"
 	"encoding/json"
 	"fmt"
@@ -66,6 +67,7 @@ type report struct {
 	// not own (go/packages' parser goroutines), not from the schedule
 	CanonicalUnstable bool `json:"canonical_unstable"`
 	StaleRuns         int  `json:"runs_over_stale_outputs"`
+	SlowToolRuns      int  `json:"runs_with_slow_tools"`
 }
 
 func main() {
@@ -110,6 +112,17 @@ func main() {
 		}
 		return nil, nil
 	}
+	// commands take simulated time: per schedule each tool is instantaneous or
+	// slow (3 s per command, cold start) - a tool that answers late is installed
+	// all the same, the outputs must not depend on how long it took
+	slowMask := uint64(0)
+	verifsim.ExecDurationHook = func(name string, args []string) time.Duration {
+		bit := map[string]uint{"which": 0, "goimports": 0, "dart": 1, "npx": 2, "pg_format": 3}[name]
+		if slowMask&(1<<bit) != 0 {
+			return 3 * time.Second
+		}
+		return 0
+	}
 	rep := report{FirstBad: -1}
 	seen := map[string]bool{}
 	order := make([]int, 0, nsched+3)
@@ -149,6 +162,11 @@ func main() {
 		}
 		fmts = generator.Formatters{}
 		r := &rng{x: seed*1000003 + uint64(k)}
+		slowMask = 0
+		if k%4 == 2 {
+			slowMask = 1 + r.next()%15
+			rep.SlowToolRuns++
+		}
 		var perturbed []string
 		if k == 0 {
 			verifsim.MapHook = func(site string, n int) []int { return nil }
